@@ -124,3 +124,10 @@ func (r *Raft) VerifLeaderChPeek() (v bool, ok bool) {
 		return false, false
 	}
 }
+
+// VerifElectSelf makes the server stand for election as its own election timeout would (skipping pre-vote):
+// Candidate state, then the real electSelf. The vote requests to peers are issued by goroutines of their own.
+func (r *Raft) VerifElectSelf() {
+	r.setState(Candidate)
+	r.electSelf()
+}
